@@ -51,15 +51,22 @@ CAP = 64
 CPU_LIMIT = 0.4    # seconds of worker CPU time for one history (a normal one needs a few ms)
 
 
-def nmax(tier):
-    return 4 if tier == "thorough" else 3
+def nmax(tier, shape="A", dbi=3):
+    """history length: quick 3; thorough 3 everywhere and 4 for the fact shape A over the two largest
+    initial databases (the many non-terminating histories of this tree make more unaffordable)"""
+    if tier == "thorough" and shape == "A" and dbi >= 3:
+        return 4
+    return 3
 
 
 def bound_text(tier):
-    return ("all histories of length <= %d over 14 operations x 5 initial databases x 3 clause shapes "
-            "%s" 
-            "(a history is not extended once it ended in a panic or hang); clause/2-iterator family of length 2"
-            % (nmax(tier), "" if tier == "thorough" else "(shapes B and C over the initial databases [1,2,3] and [2,1,2] only) "))
+    if tier == "thorough":
+        return ("all histories of length <= 3 over 14 operations x 5 initial databases x 3 clause shapes, and of length 4 "
+                "for shape A over the initial databases [1,2,3] and [2,1,2] (a history is not extended once it ended "
+                "in a panic or hang); clause/2-iterator family of length 2")
+    return ("all histories of length <= 3 over 14 operations x 5 initial databases x 3 clause shapes "
+            "(shapes B and C over the initial databases [1,2,3] and [2,1,2] only) (a history is not extended once it "
+            "ended in a panic or hang); clause/2-iterator family of length 2")
 
 
 def shards(tier):
@@ -449,15 +456,16 @@ def run_shard(w, shard, tier):
         for items, x in zip(hs, execute(w, shape, db0, hs)):
             record(acc, states, shape, db0, items, x)
     else:
+        top = nmax(tier, shape, dbi)
         level = [[ITEMS[first]]]
-        for ln in range(1, nmax(tier) + 1):
+        for ln in range(1, top + 1):
             nxt = []
             for part in px.chunked(level, 3000):
                 for items, x in zip(part, execute(w, shape, db0, part)):
                     abnormal = record(acc, states, shape, db0, items, x)
                     if abnormal:
                         acc.extra["not_extended_after_abnormal"] += 1
-                    elif ln < nmax(tier):
+                    elif ln < top:
                         nxt.append(items)
             level = [h + [it] for h in nxt for it in ITEMS]
     acc.states = len(states)
